@@ -37,7 +37,7 @@ def cases(tier, seed):
     ks = [1, 2, 2, 3, 4, 4, 8] if tier == "quick" else [1, 2, 2, 3, 4, 4, 8, 8, 16]
     profs = instr_mp.PROFILES
     for i in range(n):
-        s = gens.gen_pyramid(R, maxdepth=4 if tier == "quick" else 5, mindepth=0 if i % 15 == 0 else 2,
+        s = gens.gen_pyramid(R, maxdepth=4 if tier == "quick" else 5, mindepth=0 if i % 15 == 0 else 2, redepth_p=0.12,
                              kinds=("generic", "toast", "filtered", "filtered", "filtered", "bbox"), sub_p=0.4)
         s["profile"] = profs[i % len(profs)]
         s["par"] = R.choice(ks)
